@@ -88,6 +88,11 @@ trait Sut {
     fn record_cancel(&mut self, c: &str);
     fn snapshot(&mut self, c: &str, state: OrderState<u64x, u64x>, q: i64, s: i64, variant: u64);
     fn cancel_resp(&mut self, c: &str, ok: bool, variant: u64);
+    /// Several reports delivered by ONE full account snapshot (all ids live on one exchange).
+    /// `false` when this entry-point family has no such call.
+    fn snapshot_batch(&mut self, _items: Vec<(String, OrderState<u64x, u64x>, i64, i64)>) -> bool {
+        false
+    }
     fn set(&mut self, c: &str, st: &Value);
     fn project(&self) -> Value;
 }
@@ -242,6 +247,23 @@ impl Sut for EngineSut {
         };
         let _ = self.state.update_from_account(&AccountEvent { exchange, kind });
     }
+    fn snapshot_batch(&mut self, items: Vec<(String, OrderState<u64, u64>, i64, i64)>) -> bool {
+        let (exchange, _) = home(&items[0].0);
+        // one InstrumentAccountSnapshot per instrument, reports in the delivered sequence
+        let mut instruments: Vec<InstrumentAccountSnapshot<ExchangeIndex, AssetIndex, InstrumentIndex>> = vec![];
+        for (c, state, q, sv) in items {
+            let (ex, instrument) = home(&c);
+            assert_eq!(ex, exchange, "a batch lives on one exchange");
+            let order = order_with(key_engine(&c), q, sv, reindex(state));
+            match instruments.iter_mut().find(|i| i.instrument == instrument) {
+                Some(i) => i.orders.push(order),
+                None => instruments.push(InstrumentAccountSnapshot { instrument, orders: vec![order] }),
+            }
+        }
+        let kind = AccountEventKind::Snapshot(AccountSnapshot { exchange, balances: vec![], instruments });
+        let _ = self.state.update_from_account(&AccountEvent { exchange, kind });
+        true
+    }
     fn cancel_resp(&mut self, c: &str, ok: bool, variant: u64) {
         let (exchange, _) = home(c);
         let state = if ok { Ok(Cancelled::new(oid(1), time(variant as i64 % 5))) } else { Err(order_err(variant)) };
@@ -315,13 +337,39 @@ fn apply(sut: &mut dyn Sut, e: &Value, variant: u64) {
 }
 
 fn log_step(out: &mut Out, sut: &mut dyn Sut, e: &Value, variant: u64) {
+    // a replayed scenario carries the variant (report flavour) it was recorded with
+    let variant = e.get("v").and_then(Value::as_u64).unwrap_or(variant);
     let r = catch(|| apply(sut, e, variant));
     let mut line = e.clone();
+    line["v"] = json!(variant);
     line["post"] = match r {
         Ok(()) => sut.project(),
         Err(p) => json!({"panic": p}),
     };
     out.line(&line);
+}
+
+/// One account snapshot carrying `evs` (all `Snap`, one exchange): a single line
+/// `{"a":"Batch","evs":[..],"post":..}`; the spec applies the reports in the listed sequence.
+fn log_batch(out: &mut Out, sut: &mut dyn Sut, evs: &[Value], variant: u64) {
+    let items = evs
+        .iter()
+        .enumerate()
+        .map(|(n, e)| (s(e, "c").to_string(), report_state(e, variant + n as u64), i(e, "q"), i(e, "s")))
+        .collect::<Vec<_>>();
+    let r = catch(|| {
+        let done = sut.snapshot_batch(items);
+        assert!(done, "batch on a family without account snapshots");
+    });
+    let post = match r {
+        Ok(()) => sut.project(),
+        Err(p) => json!({"panic": p}),
+    };
+    out.line(&json!({"a": "Batch", "evs": evs, "v": variant, "post": post}));
+}
+
+fn same_exchange(a: &Value, b: &Value) -> bool {
+    home(s(a, "c")).0 == home(s(b, "c")).0
 }
 
 fn reset(out: &mut Out, sut: &mut dyn Sut, init: Option<&Value>) {
@@ -341,13 +389,39 @@ fn main() {
     let mode = args.str("mode", "orders");
     let mut out = Out::create(args.req("out"));
     let mut sut = new_sut(&mode);
+    let mut batches = 0usize;
     match args.cmd.as_str() {
         "run" => {
             let scenarios = read_ndjson(args.req("scenarios"));
             for (n, scn) in scenarios.iter().enumerate() {
                 reset(&mut out, sut.as_mut(), scn.get("init"));
-                for (j, e) in scn["evs"].as_array().expect("evs").iter().enumerate() {
-                    log_step(&mut out, sut.as_mut(), e, (n + j) as u64);
+                let evs = scn["evs"].as_array().expect("evs");
+                let mut j = 0;
+                while j < evs.len() {
+                    // in the engine family a third of the runs of consecutive reports of one exchange
+                    // arrive together, inside one full account snapshot
+                    if s(&evs[j], "a") == "Batch" {
+                        // replay of a recorded scenario: the grouping is given
+                        batches += 1;
+                        let v = evs[j].get("v").and_then(Value::as_u64).unwrap_or((n + j) as u64);
+                        log_batch(&mut out, sut.as_mut(), evs[j]["evs"].as_array().expect("batch evs"), v);
+                        j += 1;
+                        continue;
+                    }
+                    let mut k = j + 1;
+                    if mode == "engine" && (n + j) % 3 == 0 && s(&evs[j], "a") == "Snap" {
+                        while k < evs.len() && k - j < 4 && s(&evs[k], "a") == "Snap" && same_exchange(&evs[j], &evs[k]) {
+                            k += 1;
+                        }
+                    }
+                    if k - j >= 2 {
+                        batches += 1;
+                        log_batch(&mut out, sut.as_mut(), &evs[j..k], (n + j) as u64);
+                    } else {
+                        k = j + 1;
+                        log_step(&mut out, sut.as_mut(), &evs[j], (n + j) as u64);
+                    }
+                    j = k;
                 }
             }
         }
@@ -362,6 +436,34 @@ fn main() {
                     since_reset = 0;
                 }
                 since_reset += 1;
+                if mode == "engine" && rng.random_range(0..100) < 12 {
+                    // one account snapshot with 2..=4 reports about c1 / c2 (exchange 0) or c3 (exchange 1),
+                    // typically several about the same id: open then terminal, terminal then open, stale, ties
+                    let pool: &[&str] = if rng.random_bool(0.75) { &["c1", "c2"] } else { &["c3"] };
+                    let proj = sut.project();
+                    let mut qs = std::collections::HashMap::new();
+                    let len = rng.random_range(2..=4);
+                    let mut evs = vec![];
+                    for _ in 0..len {
+                        let c = if rng.random_bool(0.7) { pool[0] } else { pool[pool.len() - 1] };
+                        let q = *qs.entry(c).or_insert_with(|| {
+                            let cur = &proj[c];
+                            if cur["k"] != "U" { cur["q"].as_i64().unwrap_or(2) } else { rng.random_range(1..=3) }
+                        });
+                        let sv = rng.random_range(1..=2);
+                        let f = match rng.random_range(0..4) { 0 => 0, 1 => q, _ => rng.random_range(0..=q) };
+                        let m = json!({"has": true, "id": rng.random_range(1..=2), "t": rng.random_range(0..=tmax), "f": f});
+                        evs.push(match rng.random_range(0..100) {
+                            0..=29 => ev("Snap", c, "Inactive", q, sv, meta_json(None), false),
+                            30..=34 => ev("Snap", c, "OIF", q, sv, meta_json(None), false),
+                            35..=89 => ev("Snap", c, "Open", q, sv, m, false),
+                            _ => ev("Snap", c, "CIF", q, sv, m, false),
+                        });
+                    }
+                    batches += 1;
+                    log_batch(&mut out, sut.as_mut(), &evs, n as u64);
+                    continue;
+                }
                 let c = CIDS[rng.random_range(0..CIDS.len())];
                 // what is tracked now decides the quantity reports carry (as the execution manager does)
                 let cur = sut.project()[c].clone();
@@ -388,5 +490,5 @@ fn main() {
         c => usage(&format!("unknown command {c}")),
     }
     let n = out.finish();
-    println!("{}", json!({"lines": n, "mode": mode}));
+    println!("{}", json!({"lines": n, "mode": mode, "account_snapshots_with_several_reports": batches}));
 }
